@@ -168,8 +168,10 @@ func (h *HandlerSet) HandleCheckComplexity(ctx context.Context, request mcp.Call
 	if cfg != nil && cfg.Output.MinComplexity > 0 {
 		minComplexity = cfg.Output.MinComplexity
 	}
+	minComplexityGiven := false
 	if mc, ok := args["min_complexity"].(float64); ok {
 		minComplexity = int(mc)
+		minComplexityGiven = true
 	}
 
 	maxComplexity := 0
@@ -241,7 +243,12 @@ func (h *HandlerSet) HandleCheckComplexity(ctx context.Context, request mcp.Call
 	complexityService := service.NewComplexityService()
 	fileReader := service.NewFileReader()
 	formatter := service.NewOutputFormatter()
-	configLoader := service.NewConfigurationLoader()
+	// An argument of the request wins over the configuration file, also when
+	// its value equals the built-in default
+	var configLoader domain.ConfigurationLoader = service.NewConfigurationLoader()
+	if minComplexityGiven {
+		configLoader = service.WithExplicitMinComplexity(configLoader)
+	}
 
 	useCase := app.NewComplexityUseCase(
 		complexityService,
@@ -334,13 +341,17 @@ func (h *HandlerSet) HandleDetectClones(ctx context.Context, request mcp.CallToo
 
 	// Parse optional parameters
 	similarityThreshold := req.SimilarityThreshold
+	similarityThresholdGiven := false
 	if st, ok := args["similarity_threshold"].(float64); ok {
 		similarityThreshold = st
+		similarityThresholdGiven = true
 	}
 
 	minLines := req.MinLines
+	minLinesGiven := false
 	if ml, ok := args["min_lines"].(float64); ok {
 		minLines = int(ml)
+		minLinesGiven = true
 	}
 
 	groupClones := req.GroupClones
@@ -361,7 +372,15 @@ func (h *HandlerSet) HandleDetectClones(ctx context.Context, request mcp.CallToo
 	cloneService := service.NewCloneService()
 	fileReader := service.NewFileReader()
 	formatter := service.NewCloneOutputFormatter()
-	configLoader := service.NewCloneConfigurationLoader()
+	// An argument of the request wins over the configuration file, also when
+	// its value equals the built-in default
+	var configLoader domain.CloneConfigurationLoader = service.NewCloneConfigurationLoader()
+	if similarityThresholdGiven {
+		configLoader = service.WithExplicitSimilarityThreshold(configLoader, similarityThreshold)
+	}
+	if minLinesGiven {
+		configLoader = service.WithExplicitMinLines(configLoader, minLines)
+	}
 
 	useCase := app.NewCloneUseCase(
 		cloneService,
@@ -627,7 +646,8 @@ func (h *HandlerSet) HandleFindDeadCode(ctx context.Context, request mcp.CallToo
 			minSeverity = domain.DeadCodeSeverityCritical
 		}
 	}
-	if ms, ok := args["min_severity"].(string); ok {
+	ms, minSeverityGiven := args["min_severity"].(string)
+	if minSeverityGiven {
 		switch ms {
 		case "info":
 			minSeverity = domain.DeadCodeSeverityInfo
@@ -662,7 +682,12 @@ func (h *HandlerSet) HandleFindDeadCode(ctx context.Context, request mcp.CallToo
 	deadCodeService := service.NewDeadCodeService()
 	fileReader := service.NewFileReader()
 	formatter := service.NewDeadCodeFormatter()
-	configLoader := service.NewDeadCodeConfigurationLoader()
+	// An argument of the request wins over the configuration file, also when
+	// its value equals the built-in default
+	var configLoader domain.DeadCodeConfigurationLoader = service.NewDeadCodeConfigurationLoader()
+	if minSeverityGiven {
+		configLoader = service.WithExplicitMinSeverity(configLoader)
+	}
 
 	useCase := app.NewDeadCodeUseCase(
 		deadCodeService,
